@@ -302,6 +302,20 @@ func (s Spec) Probes() []string {
 		}
 		add("", " ", "-", "+", "-0", "+0", "00", "1e3", "0x10", "1_0", " 5", "5 ", "5.", ".5", "-.5", "1.5", "1.50", "a", "--1", "9223372036854775807", "9223372036854775808", "-9223372036854775808", "-9223372036854775809",
 			"18446744073709551615", "18446744073709551616", "99999999999999999999", "-99999999999999999999", "1.", "0.", "0.0", "-0.0", "Infinity", "NaN", "٣")
+		// every string of <= 4 symbols over sign, digit and point characters (++5, +-5, 5+, -.5, 0.5.)
+		var lex func(p string, n int)
+		lex = func(p string, n int) {
+			if p != "" {
+				add(p)
+			}
+			if n == 4 {
+				return
+			}
+			for _, a := range []string{"+", "-", "5", "0", "."} {
+				lex(p+a, n+1)
+			}
+		}
+		lex("", 0)
 		if fd > 0 {
 			add("0."+strings.Repeat("0", fd)+"1", "1."+strings.Repeat("9", fd), "1."+strings.Repeat("9", fd+1), "0."+strings.Repeat("0", fd-1)+"1")
 		}
